@@ -22,7 +22,7 @@ from . import common
 
 ID = 'C08'
 LEVEL = 'exploration'
-RUNS = {'quick': 6000, 'thorough': 150000}
+RUNS = {'quick': 24000, 'thorough': 150000}
 SIM_TIME_UNIT = 'samples'
 RULE = ('seeded generation of (specification, tick duration, fleet of 3-5 equivalent notations, mode offline/online/pastified/'
         'dense, data) and of non-multiple bounds; every update is a checked history for the online modes; non-trivial = the '
